@@ -55,6 +55,41 @@ def dpairs(jp):
     return [(dk(k), dk(v)) for k, v in jp]
 
 
+OPERAND_KINDS = ('dict', 'userdict', 'proxy', 'chainmap', 'ordered', 'lri', 'lru', 'dict_reflected',
+                 'userdict_reflected', 'lri_reflected')
+
+
+def operand(pairs, kind):
+    """The right-hand side of ==/!=: the same pairs as a plain dict or as another mapping type."""
+    import collections
+    import types
+    d = dict(pairs)
+    kind = kind.replace('_reflected', '')
+    if kind == 'dict':
+        return d
+    if kind == 'userdict':
+        return collections.UserDict(d)
+    if kind == 'proxy':
+        return types.MappingProxyType(d)
+    if kind == 'chainmap':
+        return collections.ChainMap(d)
+    if kind == 'ordered':
+        return collections.OrderedDict(d)
+    if kind in ('lri', 'lru'):
+        o = (cu.LRI if kind == 'lri' else cu.LRU)(max_size=max(1, len(d)))
+        for k, v in d.items():
+            o[k] = v
+        return o
+    raise AssertionError(kind)
+
+
+def compare(c, name, pairs, kind='dict'):
+    other = operand(pairs, kind)
+    if kind.endswith('_reflected'):
+        return (other == c) if name == 'eq' else (other != c)
+    return (c == other) if name == 'eq' else (c != other)
+
+
 def model_op(op):
     """JSON op -> op understood by models.lru_model (decoded keys; update args
     normalised to the sequence of assignments the statement describes)."""
@@ -199,10 +234,8 @@ def exec_op(c, op, ctx):
             for k in ks:
                 d[k] = None
             return ('ok', ('keys', len(ks), d)), None
-        if name == 'eq':
-            return ('ok', c == dict(dpairs(op[1]))), None
-        if name == 'ne':
-            return ('ok', c != dict(dpairs(op[1]))), None
+        if name in ('eq', 'ne'):
+            return ('ok', compare(c, name, dpairs(op[1]), op[2] if len(op) > 2 else 'dict')), None
         if name == 'eqself':
             return ('ok', c == c), None
         if name == 'copy':
